@@ -1,7 +1,7 @@
 // C20 — tree searches and back-reference queries equal a brute-force traversal; inherited properties.
 //
 // Exhaustive input enumeration (E2) on real files:
-//  (1) SEARCH.  Every ordered forest with <= n nodes (n = 5 quick / 7 thorough; <= 5 levels, <= 4 children per node and
+//  (1) SEARCH.  Every ordered forest with <= n nodes (n = 6 quick / 8 thorough; <= 5 levels, <= 4 children per node and
 //      <= 4 roots) is built once as a section tree (roots in the File) and once as a source tree (roots in a Block).
 //      Names are assigned per sibling position from a non-sorted pool (so the same name occurs under different parents and
 //      a name filter matches 0, 1 or several nodes), one node carries a unique name, types cycle through three values.
@@ -11,7 +11,7 @@
 //      default, the result is compared with ref_bfs(), a plain queue-based traversal of the harness' own model of the tree:
 //      equal as sets with every entity exactly once; for a search started at one Section / Source additionally the same
 //      sequence (breadth first, siblings in creation order).
-//      Then the tree is modified — a child is created under every node / at top level and deleted again; every node is
+//      Then (forests with <= 5 quick / 7 thorough nodes) the tree is modified — a child is created under every node / at top level and deleted again; every node is
 //      deleted (with its subtree) from a fresh copy of the tree — and a reduced set of queries is run through the handles
 //      obtained BEFORE the modification and through handles navigated afresh; both must equal the traversal of the
 //      modified model (a cache in a handle would show here).
@@ -375,10 +375,12 @@ static void check_find(const std::string &phase, const char *hk, const Model &m,
     vf::distinct("outcomes", std::string(K::kind()) + "|" + entry + "|" + fs.kind + (form ? "/default-arg" : "") + "|" + dclass + "|" + sz +
                                  (want.size() < reach.size() ? "|filtered" : "|all") + "|" + phase + "|" + (dev.empty() ? "ok" : dev));
     if (!dev.empty()) {
-        vf::violation("C20|" + entry + "|" + fs.kind + "|" + dclass + "|" + phase + "|" + dev,
+        // signature: entry point, limited / default depth, deviation class; the filter, the exact depth class, the phase
+        // (unmodified / after create / after delete) and the kind of handle are in the instance text
+        vf::violation("C20|" + entry + "|" + (lim < 0 ? "default depth" : "depth limit") + "|" + dev,
                       std::string(K::kind()) + " tree " + m.str() + " start=" + (start < 0 ? std::string("container") : "node " + std::to_string(start)) +
                           " filter=" + fs.desc + (form ? " (default argument form)" : "") + " max_depth=" + (lim < 0 ? std::string("default") : std::to_string(lim)) +
-                          " handles=" + hk + ": got " + (exc.empty() ? ivec(gi) : exc + " " + ewhat) + " expected " + ivec(want),
+                          " (" + dclass + ") phase=" + phase + " handles=" + hk + ": got " + (exc.empty() ? ivec(gi) : exc + " " + ewhat) + " expected " + ivec(want),
                       "names=" + vf::jvecs(m.name) + " types=" + vf::jvecs(m.type));
     }
 }
@@ -409,15 +411,15 @@ static void check_parent_sources(const std::string &phase, const char *hk, const
         std::string dev = !exc.empty() ? exc : got == want ? "" : want.empty() ? "a source instead of none for a root" : got.empty() ? "none instead of the parent" : "a source that is not the parent";
         vf::distinct("outcomes", std::string("source|Source::parentSource|") + (want.empty() ? "root" : "nested") + "|" + phase + "|" + (dev.empty() ? "ok" : dev));
         if (!dev.empty())
-            vf::violation("C20|Source::parentSource|" + std::string(want.empty() ? "root" : "nested") + "|" + phase + "|" + dev,
-                          "source tree " + m.str() + " node " + std::to_string(v) + " handles=" + hk + ": got " +
+            vf::violation("C20|Source::parentSource|" + std::string(want.empty() ? "root" : "nested") + "|" + dev,
+                          "source tree " + m.str() + " node " + std::to_string(v) + " phase=" + phase + " handles=" + hk + ": got " +
                               (got.empty() ? "none" : m.byid.count(got) ? "node " + std::to_string(m.byid.at(got)) : got) + " expected " +
                               (want.empty() ? "none" : "node " + std::to_string(m.parent[v])) + " " + ewhat);
     }
 }
 
 // ------------------------------------------------------------------------------------------------ part 1: search case
-template <class K> static void search_case(const Shape &sh) {
+template <class K> static void search_case(const Shape &sh, bool with_mods) {
     const std::string path = vf::scratch_file("tree.h5");
     {
         Built<K> b;
@@ -428,6 +430,7 @@ template <class K> static void search_case(const Shape &sh) {
         sweep<K>("unmodified", "creation", b.m, b.h, full);
         Handles<K> nav = navigate<K>(b.f, b.m);
         sweep<K>("unmodified", "navigated", b.m, nav, red);
+        if (!with_mods) return; // largest forests: the query grid only
         // B: create a child below every node / at top level (through a navigated handle), query through the old handles
         // and through fresh ones, delete it again, query again
         for (int v = -1; v < (int)sh.parent.size() && !vf::deadline_hit(); v++) {
@@ -470,10 +473,10 @@ template <class K> static void search_case(const Shape &sh) {
     }
 }
 
-static void search_case_src_parents(const Shape &sh) {
+static void search_case_src_parents(const Shape &sh, bool with_mods) {
     // Source::parentSource on every node of every shape, before and after deleting each node
     const std::string path = vf::scratch_file("tree.h5");
-    for (int del = -1; del < (int)sh.parent.size(); del++) {
+    for (int del = -1; del < (with_mods ? (int)sh.parent.size() : 0); del++) {
         Built<SrcK> b;
         build<SrcK>(path, sh, b);
         if (del < 0) { check_parent_sources("unmodified", "creation", b.m, b.h); check_parent_sources("unmodified", "navigated", b.m, navigate<SrcK>(b.f, b.m)); continue; }
@@ -587,7 +590,7 @@ static void cmp_refs(const std::string &fn, const std::string &input_class, cons
     vf::distinct("outcomes", fn + "|" + input_class + "|" + sz + "|" + phase + "|" + (dev.empty() ? "ok" : dev));
     if (!dev.empty()) {
         auto names = [&](const std::vector<std::string> &ids) { std::string o = "{"; for (const std::string &i : ids) { auto it = label.find(i); o += (o.size() > 1 ? "," : "") + (it == label.end() ? i : it->second); } return o + "}"; };
-        vf::violation("C20|" + fn + "|" + input_class + "|" + phase + "|" + dev, ctx() + ": got " + (exc.empty() ? names(got) : exc) + " expected " + names(want));
+        vf::violation("C20|" + fn + "|" + dev, ctx() + " phase=" + phase + ": got " + (exc.empty() ? names(got) : exc) + " expected " + names(want));
     }
 }
 
@@ -902,8 +905,8 @@ static void check_inherited(const std::string &phase, const char *hk, const Sect
     const std::string ic = std::string(has_link ? "link" : "no link") + "|own=" + std::to_string(own.size()) + ",linked=" + std::to_string(linked.size()) + ",shadowed=" + std::to_string(shadowed);
     vf::distinct("outcomes", "Section::inheritedProperties|" + ic + "|" + phase + "|" + (dev.empty() ? "ok" : dev));
     if (!dev.empty())
-        vf::violation("C20|Section::inheritedProperties|" + std::string(has_link ? "link" : "no link") + (shadowed ? ",shadowing" : ",no shadowing") + "|" + phase + "|" + dev,
-                      ctx + " handles=" + hk + ": got " + (exc.empty() ? vf::jvecs(gn) : exc) + " expected " + vf::jvecs(wn));
+        vf::violation("C20|Section::inheritedProperties|" + std::string(has_link ? "link" : "no link") + (shadowed ? ",shadowing" : ",no shadowing") + "|" + dev,
+                      ctx + " phase=" + phase + " handles=" + hk + ": got " + (exc.empty() ? vf::jvecs(gn) : exc) + " expected " + vf::jvecs(wn));
 }
 
 // placement: 0 = S and T are sibling roots, 1 = T is a child of S, 2 = T is the parent of S
@@ -969,7 +972,8 @@ int main(int argc, char **argv) {
     vf::init(argc, argv, "C20");
     vf::set_clock(1500000000);
     const bool thorough = vf::opt.tier == "thorough";
-    const size_t NMAX = thorough ? 7 : 5;     // nodes per forest in the search part
+    const size_t NMAX = thorough ? 7 : 5;     // nodes per forest in the search part, query grid + modifications
+    const size_t NMAX_GRID = NMAX + 1;        // forests of this size: query grid on the unmodified tree only
     const size_t NB_MAX = thorough ? 4 : 3;   // nodes per forest in the back-reference part
     auto links_for = [&](size_t nodes) { return thorough ? (nodes <= 3 ? 3 : 2) : 2; };
 
@@ -979,15 +983,16 @@ int main(int argc, char **argv) {
     { long ci = idx++; if (vf::take_case(ci)) { vf::case_desc("depth origin convention on the unit test fixtures (testFindSection / testFindSource)"); convention_fixture<SecK>(); convention_fixture<SrcK>(); } }
 
     // ---- part 1: searches on every forest
-    std::vector<Shape> shapes = all_shapes(NMAX);
+    std::vector<Shape> shapes = all_shapes(NMAX_GRID);
     size_t nsampled = 0;
     for (const Shape &sh : shapes) {
         for (int kind = 0; kind < 2; kind++) {
             long ci = idx++;
             if (!vf::take_case(ci)) continue;
-            vf::case_desc(std::string("search: ") + (kind ? "source" : "section") + " forest " + shape_str(sh.level));
+            const bool mods = sh.parent.size() <= NMAX;
+            vf::case_desc(std::string("search: ") + (kind ? "source" : "section") + " forest " + shape_str(sh.level) + (mods ? "" : " (query grid only)"));
             std::string what;
-            std::string exc = vf::guarded([&] { if (kind) { search_case<SrcK>(sh); search_case_src_parents(sh); } else search_case<SecK>(sh); }, &what);
+            std::string exc = vf::guarded([&] { if (kind) { search_case<SrcK>(sh, mods); search_case_src_parents(sh, mods); } else search_case<SecK>(sh, mods); }, &what);
             if (!exc.empty()) vf::violation(std::string("C20|search case|") + (kind ? "source" : "section") + "|unexpected exception outside a query|" + exc, shape_str(sh.level) + ": " + what);
             vf::distinct("shapes", shape_str(sh.level));
             if (nsampled < 3 && sh.parent.size() >= 4) {
@@ -1038,5 +1043,6 @@ int main(int argc, char **argv) {
     vf::note("search_forests", std::to_string(shapes.size()));
     vf::note("backref_forests", std::to_string(bshapes.size()));
     vf::note("nmax", std::to_string(NMAX));
+    vf::note("nmax_grid_only", std::to_string(NMAX_GRID));
     return vf::finish();
 }
